@@ -97,6 +97,9 @@ def make_ds(rng, xr, fmt):
     if grid:
         coords["lat"] = np.round(np.sort(rng.uniform(-60, 60, shape[1])), 4)
         coords["lon"] = np.round(np.sort(rng.uniform(0, 359, shape[2])), 4)
+        if rng.random() < 0.4:
+            # -180..180 convention; most such grids straddle Greenwich (negative and positive longitudes)
+            coords["lon"] = np.round(np.sort(rng.uniform(-20, 20, shape[2]) if rng.random() < 0.6 else rng.uniform(-179, 179, shape[2])), 4)
     else:
         coords["site"] = np.arange(shape[1]) if rng.random() < 0.5 else np.arange(1, shape[1] + 1)
     ds = xr.DataArray(A, dims=lead + ["freq", "dir"], coords=coords, name="efth").to_dataset()
@@ -107,7 +110,7 @@ def make_ds(rng, xr, fmt):
         ds["efth"] = (tuple(od), np.ascontiguousarray(ds["efth"].values))
     if not grid:
         dec = 7 if fmt in ("netcdf", "json") else 5           # formats that store positions as doubles keep every digit
-        lon = np.round(rng.uniform(0, 359, shape[1]), dec)
+        lon = np.round(rng.uniform(0, 359, shape[1]) if rng.random() < 0.6 else rng.uniform(-179, 179, shape[1]), dec)
         lat = np.round(rng.uniform(-70, 70, shape[1]), dec)
         ds["lon"] = (("site",), lon)
         ds["lat"] = (("site",), lat)
@@ -142,8 +145,8 @@ def one(ctx, rng, xr, ws, fmt, d):
             gz = rng.random() < 0.3
             path = os.path.join(d, "out.spec" + (".gz" if gz else ""))
             opts = {"ntime": None if rng.random() < 0.5 else int(rng.integers(1, nt + 1))}
-            ds.spec.to_swan(path, **opts)
-            back = ws.read_swan(path)
+            again = lambda: (ds.spec.to_swan(path, **opts), ws.read_swan(path))[1]
+            back = again()
             key0 += "|gz=%s|ntime=%s" % (gz, "all" if opts["ntime"] is None else ("lt" if opts["ntime"] < nt else "eq"))
         elif base == "octopus":
             gz = rng.random() < 0.3
@@ -151,13 +154,13 @@ def one(ctx, rng, xr, ws, fmt, d):
             opts = {"ntime": None if rng.random() < 0.5 else int(rng.integers(1, nt + 1))}
             fq = ds.freq.values
             # the sea/swell cutoff of the parameter block must lie inside the frequency range
-            ds.spec.to_octopus(path, fcut=float(fq[0] + 0.5 * (fq[-1] - fq[0])), **opts)
-            back = ws.read_octopus(path)
+            again = lambda: (ds.spec.to_octopus(path, fcut=float(fq[0] + 0.5 * (fq[-1] - fq[0])), **opts), ws.read_octopus(path))[1]
+            back = again()
             key0 += "|gz=%s|ntime=%s" % (gz, "all" if opts["ntime"] is None else ("lt" if opts["ntime"] < nt else "eq"))
         elif base == "json":
             path = os.path.join(d, "out.json")
-            ds.spec.to_json(path)
-            back = ws.read_json(path)
+            again = lambda: (ds.spec.to_json(path), ws.read_json(path))[1]
+            back = again()
         elif base == "netcdf":
             path = os.path.join(d, "out.nc")
             opts = {"packed": bool(rng.random() < 0.6)}
@@ -197,6 +200,22 @@ def one(ctx, rng, xr, ws, fmt, d):
         rec.bad("roundtrip_" + base, key0, {"raised": repr(e)[:400], "options": opts, "sizes": dict(ds.sizes)}, mech)
         return
     compare(rec, base, key0, ds, back, kinds, opts)
+    if base in ("swan", "octopus", "json") and rng.random() < 0.35:
+        # the same Dataset object written again after its spectra were edited in place: the file holds the edited ones
+        how = str(rng.choice(["setitem", "values"]))
+        try:
+            if how == "setitem":
+                ds["efth"][dict(time=0)] = ds["efth"].isel(time=0) * 0.25
+                if ds.sizes["time"] > 1:
+                    ds["efth"][dict(time=slice(1, None))] = ds["efth"].isel(time=slice(1, None)) * 4.0
+            else:
+                ds["efth"].values[...] = ds["efth"].values * 0.5
+            back2 = again()
+        except Exception as e:
+            rec.bad("roundtrip_" + base, key0 + "|rewrite", {"raised": repr(e)[:400]}, "roundtrip-raises:" + base)
+            return
+        rec.note("rewritten_after_inplace_edit:" + base)
+        compare(rec, base, key0 + "|rewrite-after-inplace-%s" % how, ds, back2, kinds, opts)
 
 
 def tol_for(base, E, f, th, packed):
